@@ -15,6 +15,7 @@ package c09
 import (
 	"bytes"
 	"fmt"
+	"math"
 	"os"
 	"sort"
 	"strings"
@@ -118,7 +119,7 @@ func genPackSpec(t *rapid.T, L int) (specgen.Desc, string) {
 				p.CryptoLength = first
 			} else if rapid.IntRange(0, 3).Draw(t, "plan-crypto") != 0 {
 				// split points that make a two-datagram flight out of a one-datagram ClientHello are common
-				p.CryptoLength = rapid.OneOf(rapid.IntRange(20, 1000), rapid.IntRange(max(20, L/3), min(1000, max(21, 2*L/3))), rapid.Just(999)).Draw(t, "plan-cl")
+				p.CryptoLength = rapid.OneOf(rapid.IntRange(20, 1000), rapid.IntRange(min(999, max(20, L/3)), min(1000, max(21, 2*L/3))), rapid.Just(999)).Draw(t, "plan-cl")
 			}
 			if p.CryptoLength > 0 && rapid.IntRange(0, 2).Draw(t, "plan-size") == 0 {
 				// "must leave room" (InitialPacketPlan.PacketSize doc): same margin as specgen.Gen
@@ -146,6 +147,10 @@ func genPackSpec(t *rapid.T, L int) (specgen.Desc, string) {
 		S := L
 		if L > 1000 || rapid.Bool().Draw(t, "tile-split") {
 			S = rapid.IntRange(max(20, L/4), min(1000, L-1)).Draw(t, "tile-s")
+			if L <= 1200 && rapid.IntRange(0, 2).Draw(t, "tile-short-tail") == 0 {
+				// the planned first datagram takes all but a tail of 1..200 bytes
+				S = L - rapid.IntRange(max(1, L-1000), 200).Draw(t, "tile-tail")
+			}
 		}
 		d.Builder = &specgen.Builder{Kind: "frames", Frames: specgen.GenTiling(t, S)}
 		d.ClearPlans = true
@@ -269,7 +274,24 @@ func genWideFlight(t *rapid.T, L int, d *specgen.Desc) string {
 func genPackParams(t *rapid.T) PackParams {
 	p := PackParams{}
 	// 600..2500 bytes; lengths around one full datagram and two-datagram flights are common
-	p.CHLen = rapid.OneOf(rapid.IntRange(600, 1100), rapid.IntRange(1100, 1500), rapid.IntRange(1500, 2500), rapid.IntRange(600, 2500)).Draw(t, "chlen")
+	p.MaxSize = rapid.SampledFrom([]int{1200, 1200, 1232, 1252, 1280, 1280, 1350, 1452}).Draw(t, "maxsize")
+	p.V2 = rapid.IntRange(0, 7).Draw(t, "v2") == 0
+	p.SrcCID = rapid.SampledFrom([]int{0, 0, 3, 4, 8, 20}).Draw(t, "srccid")
+	p.DestCID = rapid.SampledFrom([]int{8, 8, 9, 15, 16, 20}).Draw(t, "destcid")
+	if rapid.IntRange(0, 3).Draw(t, "e-token") == 0 {
+		p.TokenLen = rapid.SampledFrom([]int{1, 16, 70, 120}).Draw(t, "toklen")
+	}
+	if rapid.IntRange(0, 9).Draw(t, "chlen-tail") < 3 {
+		// "k full datagrams + a tail of 1..200 bytes": the last datagram of the first flight carries a slice that
+		// starts far from offset 0 and is shorter than whatever a pinned per-datagram layout fixes. The capacity of
+		// an unplanned Initial datagram is InitialPacketSize minus long header (7 + connection IDs + token + length
+		// + packet number), AEAD tag and one CRYPTO frame header; a few bytes of error only move the tail.
+		capacity := p.MaxSize - (7 + p.DestCID + p.SrcCID + 1 + p.TokenLen + 2 + 2) - 16 - 4
+		k := rapid.SampledFrom([]int{1, 1, 1, 2}).Draw(t, "chlen-k")
+		p.CHLen = k*capacity + rapid.IntRange(1, 200).Draw(t, "chlen-tailbytes")
+	} else {
+		p.CHLen = rapid.OneOf(rapid.IntRange(600, 1100), rapid.IntRange(1100, 1500), rapid.IntRange(1500, 2500), rapid.IntRange(600, 2500)).Draw(t, "chlen")
+	}
 	p.CHSeed = rapid.Uint64Range(1, 1<<40).Draw(t, "chseed")
 	switch rapid.IntRange(0, 19).Draw(t, "chmode") {
 	case 0:
@@ -281,13 +303,6 @@ func genPackParams(t *rapid.T) PackParams {
 		p.Cuts = append(p.Cuts, rapid.IntRange(1, p.CHLen-1).Draw(t, "cut"))
 	}
 	sort.Ints(p.Cuts)
-	p.MaxSize = rapid.SampledFrom([]int{1200, 1200, 1232, 1252, 1280, 1280, 1350, 1452}).Draw(t, "maxsize")
-	p.V2 = rapid.IntRange(0, 7).Draw(t, "v2") == 0
-	p.SrcCID = rapid.SampledFrom([]int{0, 0, 3, 4, 8, 20}).Draw(t, "srccid")
-	p.DestCID = rapid.SampledFrom([]int{8, 8, 9, 15, 16, 20}).Draw(t, "destcid")
-	if rapid.IntRange(0, 3).Draw(t, "e-token") == 0 {
-		p.TokenLen = rapid.SampledFrom([]int{1, 16, 70, 120}).Draw(t, "toklen")
-	}
 	p.Spec, p.Note = genPackSpec(t, p.CHLen)
 	return p
 }
@@ -409,10 +424,13 @@ type packMachine struct {
 	keys    *refcrypto.Keys
 	cidGen  prng
 
-	dead     bool // the packer reported an error: the connection is closed, nothing more happens
-	exBuild  bool // a per-datagram builder re-frames the packets (adds frame headers, PING, PADDING)
-	kind     string
-	maxDrain int
+	dead    bool // the packer reported an error: the connection is closed, nothing more happens
+	exBuild bool // a per-datagram builder re-frames the packets (adds frame headers, PING, PADDING)
+	// non-empty QUICFrames layout: bytes the layout pins (end of the furthest explicit CRYPTO entry / start of the
+	// furthest open one, relative to the lowest CRYPTO offset); a shorter slice takes the single-frame fallback
+	layoutFixed int
+	kind        string
+	maxDrain    int
 
 	out        []*packPkt // outstanding ack-eliciting packets, ascending packet number
 	lastPN     int64
@@ -494,6 +512,17 @@ func newPackMachine(p PackParams) vf.Machine[PackOp] {
 			m.kind = "frames-empty"
 		} else {
 			m.kind, m.exBuild = "frames", true
+			lowest := math.MaxInt
+			for _, f := range fb {
+				if off, _, ok := f.CryptoFrameInfo(); ok && off < lowest {
+					lowest = off
+				}
+			}
+			for _, f := range fb {
+				if off, l, ok := f.CryptoFrameInfo(); ok {
+					m.layoutFixed = max(m.layoutFixed, off-lowest+max(l, 0))
+				}
+			}
 		}
 	case *quic.QUICRandomFrames:
 		m.kind, m.exBuild = "random", true
@@ -877,6 +906,25 @@ func (m *packMachine) observe(what string, d *quic.VerifPackedDatagram, idx int,
 	}
 	if nTracked >= 2 && len(tracked) >= 2 {
 		m.cls["packed:non-contiguous"] = true
+	}
+	// how the slice of this datagram meets a pinned per-datagram layout (measured; the oracle above is the same for
+	// every datagram): a per-datagram builder is handed the contiguous slice [a,b) with base a
+	if m.exBuild && !planned && len(tracked) == 1 {
+		a, b := tracked[0].s, tracked[0].e
+		if !m.anyLoss && !rtx && idx >= 1 && a > 0 && b == m.p.CHLen && b-a <= 200 {
+			m.cls["tail-datagram-short"] = true
+		}
+		if m.layoutFixed > 0 && b-a < m.layoutFixed {
+			m.cls["slice-shorter-than-layout"] = true
+			if a > 0 && nCrypto == 1 {
+				m.cls["fallback-single-frame-at-nonzero-offset"] = true
+				if rtx {
+					m.cls["fallback-single-frame-at-nonzero-offset:rtx"] = true
+				} else {
+					m.cls["fallback-single-frame-at-nonzero-offset:first-transmission"] = true
+				}
+			}
+		}
 	}
 	if lp.Ack != nil {
 		m.cls["with-initial-ack"] = true
